@@ -11,26 +11,9 @@ package internal
 
 //@ elemvalues []*conformancev1.Header: v != nil
 
-// number of values carried by the first n headers
-//@ spec flatLen(src []*conformancev1.Header, n int) int = n <= 0 ? 0 : flatLen(src, n - 1) + len(src[n-1].Value)
-
-//@ lemma flatLenNonNeg(src []*conformancev1.Header, n int)
-//@   requires true
-//@   ensures flatLen(src, n) >= 0
-//@   induct flatLenNonNeg(src, n - 1) when n > 0
-//@   decreases n
-
-//@ lemma flatLenMono(src []*conformancev1.Header, m int, n int)
-//@   requires 0 <= m && m <= n
-//@   ensures flatLen(src, m) <= flatLen(src, n)
-//@   induct flatLenMono(src, m, n - 1) when n > m
-//@   decreases n
-
-//@ lemma flatLenStep(src []*conformancev1.Header, j int, n int)
-//@   requires 0 <= j && j < n
-//@   ensures flatLen(src, j) + len(src[j].Value) <= flatLen(src, n)
-//@   induct flatLenStep(src, j, n - 1) when n > j + 1
-//@   decreases n
+// flatLen(src, n), the number of values carried by the first n headers, and its lemmas
+// (flatLenNonNeg, flatLenMono, flatLenStep) are shared with grpcutil: see
+// /verif/contracts/extern/shared.vc.
 
 //@ func AddHeaders
 //@   requires hAddN[0] >= 0
